@@ -126,8 +126,9 @@ static inline int pre_verif_isclose_fv(fv_t a, fv_t b, float eps)
 static inline int post_verif_isclose_fv(fv_t a, fv_t b, float eps, int ret)
 { return (ret != 0) == spec_isclose_fv(a, b, eps); }
 
-/* ---------------------------------------------------------------- regions of the recorded defects (known_findings.json)
- * exactly the inputs on which the result is wrong (or the call traps); everything outside is proved */
+/* ---------------------------------------------------------------- regions of the two defects found with these contracts (fixed in /repo:
+ * d5a400c isequal, d860e27 isclose; listed under `fixed` in known_findings.json).  Kept as documentation of the exact failing sets:
+ * the inputs on which the pre-fix result was wrong (or the call trapped); no longer excluded from any contract. */
 /* detail::isequal, index-array branch: operands of different length whose first len(a) stored elements coincide */
 #define C18_LEN_IGNORED_SV(a, b)      (SV_LEN(a) != SV_LEN(b) && scan_first_diff_sv(a, b) == CAP)
 /* same branch, one operand a fixed array<3>: the bounded operand is read at positions 0..2 whatever its length */
